@@ -140,6 +140,57 @@ def run(ctx):
     for s, r in zip(fan, freals):
         _C02.oracle(ctx, s, r)
         W.refused_leaves_no_trace(ctx, s, r, "c18")
+    # one FAKE_DROP / RFMUTE command on the socket thread racing the tick in which the recipient decides about a burst, on two real
+    # threads (vp/sched_driver.run_drop_race; preemption where the code calls out to logging / takes a lock).  Whatever the schedule,
+    # the outcome must be that of ONE of the two serial orders (command first, or burst first)
+    import itertools
+    from .. import sched_driver as SD
+
+    def serial(ver, pend, cmd_text, fn, first):
+        amount, period, muted = pend[0], pend[1], False
+        toks = cmd_text.split(" ")[1:]
+        a = [int(x) for x in toks[1:]]
+
+        def do_cmd():
+            nonlocal amount, period, muted
+            if toks[0] == "FAKE_DROP":
+                if a[0] >= 0 and (len(a) < 2 or a[1] > 0):
+                    amount, period = a[0], (a[1] if len(a) > 1 else 1)
+            elif toks[0] == "RFMUTE":
+                muted = a[0] > 0
+
+        def do_burst():
+            nonlocal amount
+            if muted:
+                sup = True
+            elif amount != 0 and fn % period == 0:
+                sup, amount = True, amount - 1
+            else:
+                sup = False
+            return [] if (sup and ver == 0) else [(1 if sup else 0, fn)]
+        if first == "cmd":
+            do_cmd(); got = do_burst()
+        else:
+            got = do_burst(); do_cmd()
+        return (amount, period, muted, tuple(got))
+    nrace = 0
+    for cmd_text in ("CMD FAKE_DROP 5", "CMD FAKE_DROP 0", "CMD FAKE_DROP 2 3", "CMD FAKE_DROP 4 5", "CMD FAKE_DROP -1", "CMD FAKE_DROP 1 0", "CMD RFMUTE 1", "CMD RFMUTE 0"):
+        for ver in (0, 1):
+            for pend in ((3, 1), (1, 1), (2, 4), (0, 1)):
+                scheds = list(itertools.product((0, 1), repeat=7)) if ctx.tier == "thorough" else [tuple(rng.below(2) for _ in range(7)) for _ in range(10)] + [(1, 1, 1, 0, 0, 0, 0), (1, 1, 0, 0, 0, 0, 0), (0,) * 7, (1,) * 7]
+                ok = {serial(ver, pend, cmd_text, 12, "cmd"), serial(ver, pend, cmd_text, 12, "burst")}
+                for sched in scheds:
+                    ctx.in_flight = ("drop-race", cmd_text, ver, pend, sched)
+                    am, per, mu, got, reply, trace, states = SD.run_drop_race(12, ver, pend, cmd_text, list(sched))
+                    nrace += 1
+                    obs = (am, per, mu, tuple(got))
+                    if states[0][0] != "done" or states[1][0] != "done" or obs not in ok:
+                        ctx.oracle_fail("a FAKE_DROP / RFMUTE command racing the clock tick that decides about a burst leaves a state no serial order of the two explains",
+                                        dict(command=cmd_text, recipient_version=ver, pending=pend, fn=12, schedule=list(sched), trace=trace, thread_states=[list(x) for x in states]),
+                                        key="c18-drop-race", expected=sorted(ok), observed=obs)
+                        break
+    ctx.count("drop_race_schedules", nrace)
+    ctx.evaluations += nrace
     ctx.sample([SC.describe(o) for o in scripts[0][1][:14]])
     ctx.count("operations", sum(len(s[1]) for s in scripts))
     ctx.extra["rule"] = ("sessions of BTS+MS tuned to each other: FAKE_DROP n [p] (n in -2..8, p in -1..13), RFMUTE, SETFORMAT 0/1 on either side interleaved with bursts and ticks "
